@@ -54,7 +54,13 @@ fn child_run(case: &AnyCase) -> String {
     simsys::reset_thread_ordinals();
     simsys::enable(simsys::SimConfig { root: dur::root_dir(), seed });
     std::panic::set_hook(Box::new(|info| {
-        let msg = format!("{info}");
+        let mut msg = format!("{info}");
+        if std::env::var_os("VERIF_BT").is_some() {
+            let bt = format!("{}", std::backtrace::Backtrace::force_capture());
+            let frames: Vec<&str> = bt.lines().filter(|l| l.contains("inputlayer") || l.contains("simbin") || l.contains("/src/")).take(40).collect();
+            msg.push_str("\n");
+            msg.push_str(&frames.join("\n"));
+        }
         if let Ok(mut g) = PANIC_MSG.lock() {
             if g.is_none() {
                 *g = Some(msg);
@@ -123,6 +129,7 @@ fn main() {
                     "c33" => AnyCase::Hsc(gen::c33_case(run_seed)),
                     "c10" => AnyCase::Hsc(gen::c10_case(run_seed)),
                     "c18" => AnyCase::Hsc(gen::c18_case(run_seed, 0)),
+                    "c19a" => AnyCase::Hsc(gen::c19a_case(run_seed)),
                     "c04" => AnyCase::Hsc(gen::c18_case(run_seed, 1)),
                     "c15p" => AnyCase::Conc(gen::c15_persist(run_seed)),
                     "c15e" => AnyCase::Conc(gen::conc_engine(run_seed, 0)),
